@@ -531,7 +531,8 @@ class Wire(object):
         if isinstance(d, i18n.PluralDirective):
             return Atom('Plural')
         if isinstance(d, StripDirective):
-            return Atom('Strip')
+            # the model's `strip` is the unconditional py:strip=""
+            return Atom('Strip') if d.expr is None else [Atom('other'), 'strip-if']
         return [Atom('other'), d.tagname]
 
     def aval(self, v):
